@@ -39,6 +39,15 @@ CONSTANTS MaxProd,        \* productions per document (fuel)
                           \*          garbage upper-case ...); attribute NAttrs + (p-1)*NDimShapes + s is property p
                           \*          written with shape s — the whole product is part of the palette
           NSnips,         \* palette snippets 1..NSnips
+          NCont, NBlk, NHost,  \* palette: HTML nesting product — inline style container x block-ish child
+                          \*          (as only / first / last child) x host element (meaning: harness tables)
+          NestMode,       \* 0: one combination picked by the rotor (simulation)
+                          \* 1: every container x child x position, host derived   (BFS, exhaustive depth 2)
+                          \* 2: every host x child x position, container derived  (BFS)
+                          \* 3: the full product (BFS, thorough)
+                          \* 4: the combinations listed in NestWitness (codes recorded from an earlier
+                          \*    full-product run: for every pass some combinations that made it fire)
+          NestWitness,    \* set of NestCode values (mode 4)
           NLex,           \* free lexemes 1..NLex
           MaxLine,        \* tokens per line (keeps lines short so that documents get many blocks)
           MinOut,         \* End only when Len(out) >= MinOut (simulation: avoid trivial documents)
@@ -441,10 +450,37 @@ CloseSpan ==
 Snippet ==
   /\ Palette /\ CanStep
   /\ \/ /\ BlockOK
-        /\ out' = out \o <<Tok("snip", Rotor(NSnips), 1), Tok("nl", 0, 0)>>
+        /\ \E k \in (IF NestMode = 0 THEN {Rotor(NSnips)} ELSE 1..NSnips) :     \* BFS plans: every snippet on its own
+             out' = out \o <<Tok("snip", k, 1), Tok("nl", 0, 0)>>
      \/ /\ InInline /\ ~InPre
         /\ \E sp \in SpChoices(Glue, LineEmpty) : out' = out \o SpTok(sp) \o <<Tok("snip", Rotor(NSnips), 0)>>
   /\ lctx' = IF AtBol THEN <<>> ELSE lctx
+  /\ Dirty /\ Spend /\ Same(<<den, stack, sec, pos, done>>)
+
+\* HTML nesting product: host( container( child ) ) with the child as only / first / last child of
+\* the container.  Passes such as swap_nodes, fix_nesting, remove_broken_children, simplify_block_nodes
+\* only fire on particular container/child/host combinations; the product makes every combination
+\* of depth 2 part of the input space.  The attribute of the host is a function of the combination.
+NestCode(c, b, h, p) == (((h - 1) * NBlk + (b - 1)) * NCont + (c - 1)) * 3 + (p - 1)
+NestAttr(code) == IF ~Palette \/ code % 3 = 0 THEN 0
+                  ELSE IF code % 3 = 1 THEN (code % NAttrs) + 1
+                  ELSE IF NDim = 0 THEN 0 ELSE NAttrs + (code % NDim) + 1
+NNest == Cardinality({i \in 1..Len(out) : out[i].t = "nest"})
+NestTok(c, b, h, p) == Tok("nest", NestCode(c, b, h, p), NestAttr(NestCode(c, b, h, p)))
+Nest ==
+  /\ Palette /\ NCont > 0 /\ BlockOK /\ CanStep /\ NNest < 2
+  /\ IF NestMode = 0
+     THEN out' = out \o <<NestTok(Rotor(NCont), ((Len(out) * 5 + fuel) % NBlk) + 1, ((Len(out) * 3 + NW + fuel * 7) % NHost) + 1,
+                                  ((Len(out) + fuel) % 3) + 1), Tok("nl", 0, 0)>>
+     ELSE IF NestMode = 4
+     THEN \E code \in NestWitness :
+            /\ code < NCont * NBlk * NHost * 3
+            /\ out' = out \o <<Tok("nest", code, NestAttr(code)), Tok("nl", 0, 0)>>
+     ELSE \E c \in 1..NCont, b \in 1..NBlk, h \in 1..NHost, p \in 1..3 :
+            /\ NestMode = 1 => h = ((c * 5 + b * 3 + p) % NHost) + 1
+            /\ NestMode = 2 => c = ((h * 7 + b * 3 + p) % NCont) + 1
+            /\ out' = out \o <<NestTok(c, b, h, p), Tok("nl", 0, 0)>>
+  /\ lctx' = <<>>
   /\ Dirty /\ Spend /\ Same(<<den, stack, sec, pos, done>>)
 
 \* macro tables: r rows x c columns, one word per cell (sizes around the cleaner's thresholds)
@@ -486,7 +522,7 @@ Lexeme ==
   /\ Spend /\ Same(<<den, stack, sec, lctx, pos, done>>)
 
 -----------------------------------------------------------------------------
-End == /\ ~done /\ AtBol /\ stack = <<>> /\ (Len(out) >= MinOut \/ fuel <= 2) /\ den # <<>>
+End == /\ ~done /\ AtBol /\ stack = <<>> /\ (Len(out) >= MinOut \/ fuel <= 2) /\ (den # <<>> \/ NNest > 0 \/ \E i \in 1..Len(out) : out[i].t = "snip")
        /\ ForwardUses = {}
        /\ done' = TRUE
        /\ flags' = NoEmptySection
@@ -503,7 +539,7 @@ Next ==
   \/ Heading \/ ParaLine \/ ParagraphBreak \/ PreLine \/ ListLine
   \/ OpenTable \/ Caption \/ NextRow \/ Cell \/ CellSep \/ CloseTable
   \/ OpenDiv \/ CloseDiv
-  \/ OpenSpan \/ CloseSpan \/ Snippet \/ BigTable \/ ListCell
+  \/ OpenSpan \/ CloseSpan \/ Snippet \/ Nest \/ BigTable \/ ListCell
   \/ Lexeme
   \/ End \/ EndFree
 Spec == Init /\ [][Next]_vars
